@@ -3,7 +3,7 @@
     Over [Egg/Model.v]'s [tab_insert]/[insert_all] (Egg/Merge.v). *)
 From Coq Require Import List Arith ZArith Bool PeanoNat Lia Permutation.
 Import ListNotations.
-Require Import Verif.Egg.Model Verif.Egg.Merge.
+Require Import Verif.gen.SourceFacts Verif.Egg.Model Verif.Egg.Merge.
 
 Section Sharding.
   (** any shard function of the KEY (the real one is a hash of the key columns) *)
@@ -68,3 +68,21 @@ Theorem worker_partition_irrelevant m t k (ws ws' : list (list val * Z)) :
   lattice m -> int_table t -> Permutation ws ws' ->
   int_get (insert_all m t (mk_rows ws)) k = int_get (insert_all m t (mk_rows ws')) k.
 Proof. exact (c05_order_irrelevant_lemma m t k ws ws'). Qed.
+
+(** ---- the shard function of the CURRENT source ([gen/SourceFacts.v], regenerated every run):
+    `hash_code` hashes the key columns `row[0..n_keys]` only and the shard id is a function of
+    that hash alone, i.e. the shard of a row is [h (rargs w)] for some [h] — the hypothesis shape
+    of [shard_merge_eq_serial]. A shard function that also looks at the VALUE column splits the
+    writes to one key among shards, and then the result depends on the processing order: *)
+Definition shard_row (hr : row -> nat) (i : nat) (ws : list row) : list row :=
+  filter (fun w => Nat.eqb (hr w) i) ws.
+
+Lemma value_dependent_shard_refuted :
+  let ws := [mkRow [VId 0] (VInt 5) false; mkRow [VId 0] (VInt 3) false] in
+  let hr := fun w => match rret w with VInt 5%Z => 1 | _ => 0 end in
+  tab_get (insert_all MNew [] (flat_map (fun i => shard_row hr i ws) [0; 1])) [VId 0] = Some (VInt 5)
+  /\ tab_get (insert_all MNew [] ws) [VId 0] = Some (VInt 3).
+Proof. split; vm_compute; reflexivity. Qed.
+
+Lemma source_shard_is_by_key : shard_hash_input = ShardByKey.
+Proof. vm_compute. reflexivity. Qed.
